@@ -14,7 +14,21 @@ class AppTimeout(TimeoutError):
     """A TimeoutError subclass raised by an actor itself (not by the execution timeout)."""
 
 
+class EmptyErrors(Exception):
+    """An aggregate exception raised with nothing in it: a perfectly good exception whose instance is falsy."""
+
+    def __len__(self):
+        return 0
+
+
+class QuietError(Exception):
+    def __bool__(self):
+        return False
+
+
 EXC["AppTimeout"] = AppTimeout
+EXC["EmptyErrors"] = EmptyErrors
+EXC["QuietError"] = QuietError
 EXC["CancelledError"] = asyncio.CancelledError  # an actor that lets a helper's cancellation escape (helper.cancel(); await helper)
 
 
@@ -110,6 +124,15 @@ class World:
                 if do == "ok":
                     log.add(k="actor_end", id=id_, attempt=attempt, actor=name)
                     return st.get("ret")
+                if do == "hang_cleanup":
+                    # runs into its execution timeout and then takes a while to unwind (awaits in its cancellation handler)
+                    try:
+                        await asyncio.sleep(st.get("hang", 30.0))
+                    except asyncio.CancelledError:
+                        log.add(k="actor_cleanup", id=id_, attempt=attempt, actor=name)
+                        await asyncio.sleep(st.get("cleanup", 0.5))
+                        raise
+                    return None
                 if do == "raise":
                     log.add(k="actor_raise", id=id_, attempt=attempt, actor=name, exc=st.get("exc", "ValueError"))
                     # exception texts a real actor can produce: they end up in log templates, results and buckets
@@ -118,6 +141,12 @@ class World:
                         msg = HOSTILE_TEXTS[(sum(map(ord, id_)) + attempt) % len(HOSTILE_TEXTS)]
                     raise EXC[st.get("exc", "ValueError")](msg)
                 if do == "eager":
+                    shared_tags = []
+
+                    async def shared_cb():
+                        # ONE callable object registered several times: its k-th call stands for its k-th registration
+                        log.add(k="callback", id=id_, tag=shared_tags.pop(0) if shared_tags else "c?-shared")
+
                     for pre in st.get("pre", []):
                         if pre[0] == "set_result":
                             m.set_result(pre[1])
@@ -130,6 +159,9 @@ class World:
                                 log.add(k="retry_not_refused", id=id_)
                             except ValueError:
                                 log.add(k="retry_refused", id=id_)
+                        elif pre[0] == "callback" and pre[1].endswith("shared"):
+                            shared_tags.append(pre[1])
+                            m.add_callback(shared_cb)
                         elif pre[0] == "callback":
                             cbtag = pre[1]
 
